@@ -2,7 +2,7 @@
 import re
 
 import anchors
-from core import (BA, FAL, call_matches, callee_paths, op_local, op_place, op_const, const_int, const_str, place_fields, taint,
+from core import (BA, FAL, FAXM, call_matches, callee_paths, op_local, op_place, op_const, const_int, const_str, place_fields, taint,
                   str_consts, upvar_index, closure_sites)
 from facts import strip_generics
 from rules import common
@@ -77,7 +77,7 @@ def run(ctx):
     # calls or one call fed by a local makes no difference.
     fba = BA.of(F)
     ffa = FAL.of(F)
-    exf = fba.switches_on_call(r"std::path::Path::exists")
+    exf = common.decisive_switches_on_call(F, r"std::path::Path::exists")
     adds = fba.calls(r"state::File::add_dep")
     ok = False
     created_adds = []
@@ -117,21 +117,44 @@ def run(ctx):
     t_ext = taint(SS, src_place=fld("ext"), mode="derived")
     t_dofile = taint(SS, src_place=fld("do_file"), mode="derived")
     t_dodir = taint(SS, src_place=fld("do_dir"), mode="derived")
-    # the argv vector literal: array/vec of 6 OsStrings
+    # the argv vector literal: the array/vec literal whose last element is the `$3` value (it goes back, by direct steps,
+    # to the result of state::relpath). Today that is the six-element `[sh, -e, do_file, $1, $2, $3]`; a tree that builds
+    # the interpreter prefix separately has the four-element `[do_file, $1, $2, $3]` and a two-element `[sh, -e]`.
     arr = None
+    arrays = []
     for i in sorted(sba.live):
         for s in SS.blocks[i]["stmts"]:
-            if s["s"] == "assign" and s["rv"]["k"] == "agg" and s["rv"].get("agg") == "array" and len(s["rv"]["ops"]) == 6:
-                arr = (i, s["rv"]["ops"], s["place"]["l"])
-    if arr is None:
+            if s["s"] == "assign" and s["rv"]["k"] == "agg" and s["rv"].get("agg") == "array":
+                arrays.append((i, s["rv"]["ops"], s["place"]["l"]))
+    for cand in arrays:
+        ops = cand[1]
+        if len(ops) < 4 or op_local(ops[-1]) is None:
+            continue
+        _, org_, _ = backward_direct(SS, op_local(ops[-1]), depth=200)
+        if any(o[0] == "call" and call_matches(o[2], r"state::relpath") for o in org_):
+            arr = cand
+    if arr is None or len(arr[1]) not in (4, 6):
         # navigational: the argv vector is built in another shape (pushes, a helper): cannot decide R13.3
         raise __import__("facts").AnchorError("six-element argv literal not found in %s" % SS.key)
-    if ctx.ob("R13.3", "%s|argv-literal" % SS.key, arr is not None, where=SS.span, detail="six-element argv literal located"):
+    prefix_arr = None
+    if ctx.ob("R13.3", "%s|argv-literal" % SS.key, arr is not None, where=SS.span, detail="argv literal located (%d elements)" % len(arr[1])):
         bb, ops, _ = arr
         L = [op_local(o) for o in ops]
-        c0 = _str_origin(SS, L[0])
-        c1 = _str_origin(SS, L[1])
-        ctx.ob("R13.3", "%s|argv[0..2]=sh,-e" % SS.key, c0 == "sh" and c1 == "-e", where=ctx.where(SS, bb), detail="argv[0]=%r argv[1]=%r" % (c0, c1))
+        if len(L) == 6:
+            c0 = _str_origin(SS, L[0])
+            c1 = _str_origin(SS, L[1])
+            pbb = bb
+        else:
+            c0 = c1 = None
+            pbb = bb
+            for cand in arrays:
+                if len(cand[1]) == 2 and all(op_local(o) is not None for o in cand[1]) and _str_origin(SS, op_local(cand[1][0])) == "sh":
+                    prefix_arr = cand
+                    c0 = "sh"
+                    c1 = _str_origin(SS, op_local(cand[1][1]))
+                    pbb = cand[0]
+            L = [None, None] + L
+        ctx.ob("R13.3", "%s|argv[0..2]=sh,-e" % SS.key, c0 == "sh" and c1 == "-e", where=ctx.where(SS, pbb), detail="argv[0]=%r argv[1]=%r" % (c0, c1))
         ctx.ob("R13.3", "%s|argv[2]=do_file" % SS.key, L[2] in t_dofile and L[2] not in t_base, where=ctx.where(SS, bb), detail="argv[2] derives from df.do_file")
         ctx.ob("R13.3", "%s|$1=base_name+ext" % SS.key, L[3] in t_base and L[3] in t_ext and L[3] not in t_dodir, where=ctx.where(SS, bb), detail="$1 derives from df.base_name and df.ext (relative to the .do directory)")
         ctx.ob("R13.3", "%s|$2=base_name-without-ext" % SS.key, L[4] in t_base and L[4] not in t_ext, where=ctx.where(SS, bb), detail="$2 derives from df.base_name and not from df.ext" if L[4] in t_base and L[4] not in t_ext else "$2 includes the matched extension (or is not the base name)")
@@ -145,9 +168,18 @@ def run(ctx):
             tmp_lit = any(s == ".redo.tmp" for (_, _, s, _) in str_consts(SS))
             ok = ok and tmp_lit
         ctx.ob("R13.3", "%s|$3=relpath(tmp_name,do_dir)" % SS.key, ok, where=ctx.where(SS, bb), detail="$3 = relpath(do_dir/(base_name+ext+'.redo.tmp'), do_dir)")
-        sk = sba.calls(r"core::iter::traits::iterator::Iterator::skip")
-        ok = any(const_int(SS.blocks[i]["term"]["args"][1]) == 2 for i in sk)
-        ctx.ob("R13.3", "%s|shebang-keeps-argv[2..]" % SS.key, ok, where=SS.span, detail="the #! rewrite replaces only `sh -e` (skip(2))")
+        if len(ops) == 6:
+            sk = sba.calls(r"core::iter::traits::iterator::Iterator::skip")
+            ok = any(const_int(SS.blocks[i]["term"]["args"][1]) == 2 for i in sk)
+            ctx.ob("R13.3", "%s|shebang-keeps-argv[2..]" % SS.key, ok, where=SS.span, detail="the #! rewrite replaces only `sh -e` (skip(2))")
+        else:
+            # the script arguments are a vector of their own, appended to whichever prefix was chosen: nothing may take
+            # elements away from it on its way into the final argv
+            script_t = taint(SS, seeds={arr[2]}, mode="derived")
+            cut = [i for i in sba.calls(r".*::(skip|skip_while|take|take_while|step_by|truncate|drain|split_off|pop|remove|swap_remove|retain|clear|filter|nth)$")
+                   if any(op_local(a) in script_t for a in SS.blocks[i]["term"]["args"] if op_local(a) is not None)]
+            ctx.ob("R13.3", "%s|shebang-keeps-argv[2..]" % SS.key, not cut and prefix_arr is not None, where=ctx.where(SS, cut[0]) if cut else SS.span,
+                   detail="the script arguments [do_file, $1, $2, $3] are appended whole to the interpreter prefix" if not cut else "an element of the script-argument vector is dropped on its way into argv")
     # the argv that reaches execvp is this vector
     fcs = [cl for parent, cbb, cl in anchors.fork_closures(prog) if parent.key == SS.key]
     if ctx.ob("R13.4", "do-child-closure", len(fcs) == 1, where=SS.span, detail="%d .do child closures" % len(fcs)):
@@ -164,27 +196,28 @@ def run(ctx):
 
         def from_df(o, field):
             return any(root[0] == "upvar" and root[1] in df_up and field in fields for (root, fields) in common.operand_origin_paths(cl, o))
+        # (dominance over feasible paths: setup steps moved into helpers that return a Result are followed by the caller's `?`,
+        # whose failure arm is the only continuation of the helper's failure return)
+        cfa = FAXM.of(cl)
         cd_all = cba.calls(r"std::env::set_current_dir")
         cd = [i for i in cd_all if from_df(cl.blocks[i]["term"]["args"][0], "paths::DoFile.do_dir")]
         emp = [e for e in cba.switches_on_call(r"std::ffi::os_str::OsStr::is_empty") if from_df(cl.blocks[e[3]]["term"]["args"][0], "paths::DoFile.do_dir")]
         ok = False
         if cd and ex and emp:
-            ok = any(all(cba.edge_dominates((sw, f_t), c) for c in cd) and cba.path([f_t], ex, avoid=frozenset(cd), incl=True) is None
-                     and all(cba.dominates(sw, e) for e in ex) for (sw, t_t, f_t, _) in emp)
+            ok = any(all(cfa.edge_dominates((sw, f_t), c) for c in cd) and cfa.path([f_t], ex, avoid=frozenset(cd), incl=True) is None
+                     and all(cfa.dominates(sw, e) for e in ex) for (sw, t_t, f_t, _) in emp)
         ctx.ob("R13.4", "%s|chdir(do_dir)-before-exec" % cl.key, ok, where=ctx.where(cl, cd[0]) if cd else cl.span, detail="set_current_dir(df.do_dir) on the non-empty side precedes execvp")
         if not cd:
             cd = cd_all
         # a failed chdir aborts the child
         if cd:
-            errsw = [sw for (sw, t_t, f_t, cbb) in cba.switches_on_call(r"core::result::Result::is_err") if cba.dominates(cd[0], sw)]
-            ok = False
-            for (sw, t_t, f_t, cbb) in cba.switches_on_call(r"core::result::Result::is_err"):
-                if cba.dominates(cd[0], sw) and cba.path([t_t], ex, incl=True) is None:
-                    ok = True
+            # the failure side of the chdir, in whichever idiom consumes its Result (`if ..is_err()`, `?`, `map_err(..)?`, match)
+            fails = common.failure_continuations(cl, cd[0])
+            ok = bool(fails) and all(cfa.path([f_], ex, incl=True) is None for f_ in fails)
             ctx.ob("R13.4", "%s|failed-chdir-aborts" % cl.key, ok, where=ctx.where(cl, cd[0]), detail="a failed chdir never reaches execvp")
         for var, fields in (("REDO_PWD", ["paths::DoFile.do_dir"]), ("REDO_TARGET", ["paths::DoFile.base_name", "paths::DoFile.ext"])):
             st = [i for (b, i) in env_setters(prog, var) if b.key == cl.key]
-            ok = len(st) == 1 and all(cba.dominates(st[0], e) for e in ex)
+            ok = len(st) == 1 and all(cfa.dominates(st[0], e) for e in ex)
             if ok:
                 v = op_local(cl.blocks[st[0]]["term"]["args"][1])
                 tv = {f: taint(cl, src_place=(lambda ff: (lambda p: ff in place_fields(p)))(f), mode="derived") for f in fields}
@@ -195,6 +228,9 @@ def run(ctx):
             a = op_local(cl.blocks[ex[0]]["term"]["args"][1])
             # the captured argv: the closure variable bound to a start_self local derived from the argv literal
             argv_t = taint(SS, seeds={arr[2]}, mode="derived") if arr is not None else set()
+            if prefix_arr is not None:
+                # both halves must arrive: the captured vector derives from the script arguments *and* from the prefix
+                argv_t = argv_t & taint(SS, seeds={prefix_arr[2]}, mode="derived")
             argv_up = common.upvars_bound_to(SS, cl.key, lambda l: l in argv_t)
             tv = taint(cl, src_place=lambda p: (upvar_index(p) or (None, None))[0] in argv_up, mode="derived")
             ctx.ob("R13.4", "%s|exec-argv-is-built-argv" % cl.key, a in tv, where=ctx.where(cl, ex[0]), detail="execvp receives the argv built in start_self")
